@@ -37,6 +37,30 @@ def _flip_outcome(records):
     raise core.MachineryError("nothing to corrupt")
 
 
+def _summary(tmp):
+    '''what the violations of this demonstration run look like (the replay
+    files themselves are in a scratch directory)'''
+    import collections
+    import glob
+    import json
+    groups = collections.Counter()
+    tests = {}
+    for path in glob.glob(tmp + "/C14-*.json"):
+        with open(path) as f:
+            rep = json.load(f)
+        case = rep["case"]
+        if str(case.get("binding", "")).startswith("B"):
+            key = ("B", case["op"], rep["clause"], case["nodes"]["1"])
+            tests.setdefault(key, set()).update(case["tests"])
+        else:
+            key = ("A", case["op"]["name"], rep["clause"], case["kinds"][0])
+        groups[key] += 1
+    for key, num in sorted(groups.items()):
+        print("  violation group", key, "x", num, "(first 25 replays only)")
+        for name in sorted(tests.get(key, ()))[:12]:
+            print("      caught in", name)
+
+
 def main(argv):
     mode = argv[1] if len(argv) > 1 else "run"
     tmp = core.mktemp("pv-c14-demo-")
@@ -54,6 +78,7 @@ def main(argv):
         print("MACHINERY FAILURE:", str(err)[:400])
         rc = 2
     finally:
+        _summary(tmp)
         shutil.rmtree(tmp, ignore_errors=True)
     print("exit code", rc)
     return rc
